@@ -111,6 +111,30 @@ func propC16Offset(t *rapid.T) {
 		if diff := live.Check(b, m); diff != "" {
 			t.Fatalf("mutating AddOffset64's result changed the operand: %s [%s]", diff, desc)
 		}
+		// ... and a bitmap like any other: grow each of its first chunks in place (a value right behind the
+		// chunk's largest one, a drawn one) and compare the whole result again
+		wm := want.Clone()
+		wm.Remove(uint64(x))
+		wm.Add(uint64(x ^ 1))
+		grown := ""
+		for i, k := range wm.Keys16() {
+			if i >= 6 {
+				break
+			}
+			cw := wm.Window(uint64(k)<<16, uint64(k)<<16+65535)
+			vals := []uint64{uint64(k)<<16 + gen.Low(t, fmt.Sprintf("grow%d", i))}
+			if cw.Max() < uint64(k)<<16+65535 {
+				vals = append(vals, cw.Max()+1)
+			}
+			for _, v := range vals {
+				got.Add(uint32(v))
+				wm.Add(v)
+				grown += fmt.Sprintf(" Add(%d)", v)
+			}
+		}
+		if diff := live.Check(got, wm); diff != "" {
+			t.Fatalf("the result of AddOffset64(b,%d) misbehaves under later updates (%s): %s\n  b=%s\n  [%s]", d, grown, diff, m, desc)
+		}
 	}
 	runtime.KeepAlive(lv)
 	inst.Count("C16", "offset:"+cls)
